@@ -274,3 +274,176 @@ Theorem C01_gen_strand_dispatch :
   end.
 Proof. exact gen_stripe_dispatch. Qed.
 Print Assumptions C01_gen_strand_dispatch.
+
+(* ------------------------------------------------------------------------------------ *)
+(* NUMERIC ARRAYS AND THE 0-D NUB (Model/NumArray.v, Proofs/NumArrayProofs.v).
+   A numeric-array measure (mean / sum / stddev / median / valid counts -- the valid counts
+   back .counts / .unweighted_counts) comes with the grouping dimensions [gs] of the response
+   in payload order and the array item as the LAST axis; the library puts a NUM_ARRAY
+   dimension in FRONT ([numarr_dims]) and Cube._valid_idxs re-orders the axes with
+   Dimensions.dimension_order.  [numarr_valid n gs data] is literally the expression the
+   correspondence check evaluates (take_valid_ord / raw_shape of Model/CubeCounts.v). *)
+From CC Require Import Model.NumArray Proofs.NumArrayProofs Model.DimType Proofs.DimTypeProofs.
+
+(* Whatever per-cell statistic F the response was laid out from, cell (item i, valid grouping
+   elements gidx) of the result is F of (those grouping elements' payload positions, item i):
+   no transposition, missing grouping elements dropped wherever they sit.  One grouping axis
+   (array x categorical / date / text / binned) or two (array x MR, array x cat x cat). *)
+Theorem C01_numarr_reports_cell_statistic n gs (F : tensor) i gidx :
+  List.length gs = 1 \/ List.length gs = 2 -> valid_idx_ok gs gidx -> i < n ->
+  numarr_valid n gs (flatten (numarr_payload_shape n gs) F) (i :: gidx)
+  = F (remap (map dvalid gs) gidx ++ [i]).
+Proof. exact (numarr_reports_cell_statistic n gs F i gidx). Qed.
+Print Assumptions C01_numarr_reports_cell_statistic.
+
+(* the same as index arithmetic on the flat data: data[offset(grouping) * n_items + item] *)
+Theorem C01_numarr_payload_offset n gs data i gidx :
+  List.length gs = 1 \/ List.length gs = 2 -> valid_idx_ok gs gidx -> i < n ->
+  numarr_valid n gs data (i :: gidx)
+  = nth (offset (map dsize gs) (remap (map dvalid gs) gidx) 0 * n + i) data NaN.
+Proof. exact (numarr_valid_offset n gs data i gidx). Qed.
+Print Assumptions C01_numarr_payload_offset.
+
+(* what the partitions hand out: array x categorical-like dimension ... *)
+Theorem C01_numarr_by_cat_slice n g data i j :
+  dk g = DCat -> i < n -> j < nvalid g ->
+  option_map (fun m => mnth m i j) (slice_passthrough (numarr_dims n [g]) data 0)
+    = Some (numarr_cell n [g] data i [nth j (dvalid g) 0])
+  /\ option_map (fun so => mnth (so_counts so) i j) (slice_counts (numarr_dims n [g]) data 0)
+    = Some (numarr_cell n [g] data i [nth j (dvalid g) 0]).
+Proof. exact (numarr_by_cat_slice n g data i j). Qed.
+Print Assumptions C01_numarr_by_cat_slice.
+
+(* ... array x multiple response (the SELECTED plane of item j) ... *)
+Theorem C01_numarr_by_mr_slice n ms data i j :
+  let gs := [mkDim DMrSubvar ms; mkDim DMrCat mr_cat_missing] in
+  i < n -> j < nvalid (mkDim DMrSubvar ms) ->
+  option_map (fun m => mnth m i j) (slice_passthrough (numarr_dims n gs) data 0)
+    = Some (numarr_cell n gs data i [nth j (valid_idxs ms) 0; 0])
+  /\ option_map (fun so => mnth (so_counts so) i j) (slice_counts (numarr_dims n gs) data 0)
+    = Some (numarr_cell n gs data i [nth j (valid_idxs ms) 0; 0]).
+Proof. exact (numarr_by_mr_slice n ms data i j). Qed.
+Print Assumptions C01_numarr_by_mr_slice.
+
+(* ... the array alone (1-D strand of its items) ... *)
+Theorem C01_numarr_strand n data i :
+  i < n ->
+  numarr_valid n [] data [i] = nth i data NaN /\
+  option_map (fun st => vnth (st_counts st) i) (strand_counts (numarr_dims n []) data false 0)
+    = Some (nth i data NaN).
+Proof. exact (fun H => conj (numarr_alone n data i H) (numarr_strand n data i H)). Qed.
+Print Assumptions C01_numarr_strand.
+
+(* ... and the cube without any dimension (_Nub): the only cell *)
+Theorem C01_nub_reads_the_only_cell data : nub_value data = nth 0 data NaN.
+Proof. exact (nub_reads data). Qed.
+Print Assumptions C01_nub_reads_the_only_cell.
+
+(* REFUTED for three grouping axes (array x categorical x MR, array x MR x categorical,
+   array x MR x MR): Dimensions.dimension_order then REVERSES all axes instead of moving the
+   array axis to the back, and the cell read is not the cell of the response
+   (known_findings.d/C01-numarr-four-axes.json; the witness is replayed on the code). *)
+Theorem C01_numarr_four_axes_refuted :
+  exists n gs data i gidx,
+    List.length gs = 3 /\ i < n /\ valid_idx_ok gs gidx /\
+    numarr_valid n gs data (i :: gidx)
+    <> numarr_cell n gs data i (remap (map dvalid gs) gidx).
+Proof. exact numarr_four_axes_refuted. Qed.
+Print Assumptions C01_numarr_four_axes_refuted.
+
+(* the rotation (array axis to the back, nothing else) reads the response's cell for ANY
+   number of grouping axes -- the order a repaired dimension_order has to return *)
+Theorem C01_numarr_rotation_reads n gs data i gidx :
+  List.length gidx = List.length gs ->
+  of_flat (permute (rotate_order (S (List.length gs))) (map dsize (numarr_dims n gs))) data
+          (permute (rotate_order (S (List.length gs))) (remap (map dvalid (numarr_dims n gs)) (i :: gidx)))
+  = numarr_cell n gs data (nth i (dvalid (numarr_dim n)) 0) (remap (map dvalid gs) gidx).
+Proof. exact (rotate_order_reads n gs data i gidx). Qed.
+Print Assumptions C01_numarr_rotation_reads.
+
+(* ------------------------------------------------------------------------------------ *)
+(* WHICH DIMENSION IS WHAT (Model/DimType.v = Dimensions.dimension_type + from_dicts, tied by
+   correspondence on cube.dimension_types).  The cell values above depend on it: a selection
+   axis is collapsed to its first plane, the categories of an array are not. *)
+
+(* a dimension is a multiple-response selection axis EXACTLY when it is categorical, belongs
+   to an array, a category is flagged selected and the ids are 1, 0, -1 in this order *)
+Theorem C01_selection_axis_iff d :
+  dimension_type d = TMrCat <->
+  exists cats, rd_type d = RCategorical cats /\ rd_subrefs d = true /\
+               existsb rc_selected cats = true /\ map rc_id cats = [1%Z; 0%Z; (-1)%Z].
+Proof. exact (mr_cat_iff d). Qed.
+Print Assumptions C01_selection_axis_iff.
+
+(* sub-variables are MR items exactly when another dimension of the same alias is such an axis *)
+Theorem C01_mr_items_iff ds p :
+  p < List.length ds ->
+  (nth p (resolve ds) TCat = TMrSubvar <->
+   dimension_type (nth p ds dflt_rdim) = TCaSubvar /\ has_values (nth p ds dflt_rdim) = true /\
+   exists q, q < List.length ds /\ q <> p /\
+             rd_alias (nth q ds dflt_rdim) = rd_alias (nth p ds dflt_rdim) /\
+             dimension_type (nth q ds dflt_rdim) = TMrCat).
+Proof. exact (mr_subvar_iff ds p). Qed.
+Print Assumptions C01_mr_items_iff.
+
+(* a categorical array -- categories without selected flag (even with ids 1, 0, -1), or with a
+   flag on other ids / another order -- keeps both its axes next to any other variables *)
+Theorem C01_categorical_array_is_never_collapsed pre post a b cats :
+  is_logical cats = false ->
+  (forall d, In d (pre ++ post) -> rd_alias d <> a) ->
+  let ds := pre ++ [mkRDim a true (REnum SVariable b); mkRDim a true (RCategorical cats)] ++ post in
+  nth (List.length pre) (resolve ds) TCat = TCaSubvar /\
+  nth (S (List.length pre)) (resolve ds) TCat = TCaCat.
+Proof. exact (categorical_array_is_never_collapsed pre post a b cats). Qed.
+Print Assumptions C01_categorical_array_is_never_collapsed.
+
+Theorem C01_multiple_response_pair pre post a cats :
+  is_logical cats = true ->
+  let ds := pre ++ [mkRDim a true (REnum SVariable true); mkRDim a true (RCategorical cats)] ++ post in
+  nth (List.length pre) (resolve ds) TCat = TMrSubvar /\
+  nth (S (List.length pre)) (resolve ds) TCat = TMrCat.
+Proof. exact (multiple_response_pair pre post a cats). Qed.
+Print Assumptions C01_multiple_response_pair.
+
+(* a plain categorical that merely looks like a selection (ids 1, 0, -1 without flag, or a flag
+   on other ids) is neither a selection axis nor LOGICAL; and LOGICAL / CAT_DATE / CA_CAT /
+   DATETIME / TEXT / BINNED count like CAT *)
+Theorem C01_lookalikes_are_not_selections d cats :
+  rd_type d = RCategorical cats ->
+  existsb rc_selected cats = false \/ map rc_id cats <> [1%Z; 0%Z; (-1)%Z] ->
+  dimension_type d <> TMrCat /\ dimension_type d <> TLogical.
+Proof.
+  exact (fun E H => match H with
+                    | or_introl H1 => not_selection_without_flag d cats E H1
+                    | or_intror H2 => not_selection_other_ids d cats E H2
+                    end).
+Qed.
+Print Assumptions C01_lookalikes_are_not_selections.
+
+Theorem C01_only_four_types_are_special t :
+  t <> TMrSubvar -> t <> TMrCat -> t <> TCaSubvar -> t <> TNumArr -> dkind_of t = DCat.
+Proof. exact (dkind_of_cat_like t). Qed.
+Print Assumptions C01_only_four_types_are_special.
+
+(* Non-vacuity.  Means of a 3-item numeric array grouped by a categorical whose payload is
+   (valid, MISSING, valid, valid): data[g * 3 + item] = 100 g + item.  The slice is
+   items x valid categories, un-transposed; the square grouping (3 valid) is the shape on
+   which a missing re-ordering still looks plausible.  Then the type rule on a Yes/No/No-Data
+   grid without and with a selected flag. *)
+Example C01_numarr_example :
+  let g := mkDim DCat [false; true; false; false] in
+  let data := map (fun k => Fin (inject_Z (Z.of_nat (100 * (k / 3) + k mod 3)))) (seq 0 12) in
+  valid_idx_ok [g] [2] /\ dk g = DCat /\ nvalid g = 3 /\
+  option_map (map (map xred)) (slice_passthrough (numarr_dims 3 [g]) data 0)
+    = Some [[Fin 0; Fin 200; Fin 300]; [Fin 1; Fin 201; Fin 301]; [Fin 2; Fin 202; Fin 302]] /\
+  numarr_valid 3 [g] data [1; 2] = Fin (inject_Z 301) /\
+  nub_value [Fin 7] = Fin 7 /\
+  (let grid sel := [mkRCat 1 sel false; mkRCat 0 false false; mkRCat (-1) false false] in
+   resolve [mkRDim 0 true (REnum SVariable true); mkRDim 0 true (RCategorical (grid false))]
+     = [TCaSubvar; TCaCat] /\
+   resolve [mkRDim 0 true (REnum SVariable true); mkRDim 0 true (RCategorical (grid true))]
+     = [TMrSubvar; TMrCat] /\
+   cube_dimension_types (Some 5) [mkRDim 1 false (RCategorical (grid true))] = [TNumArr; TLogical]).
+Proof.
+  cbv zeta. repeat split; try (simpl; unfold nvalid; simpl; lia); vm_compute; reflexivity.
+Qed.
